@@ -22,6 +22,11 @@ CHECKS = {
              technique="Coq proof (list/filter reasoning, verified checkers) + vm_compute correspondence on observed selections", ref="5/C08"),
  "C09": dict(text="Theorems (Coq, closed, all histories, every answer of the threshold-count oracle): on the SSPOC token machine the invariant 'refit_ says which kind of classifier is stored and the dummy belongs to the last fit' holds in every reachable state; after ANY successful operation predict is (a) the dummy of the last fit's labels when n_sensors = 0, (b) the classifier trained on the sensor columns of the data of THAT call for the CURRENT selection, applied directly, after refitting operations, (c) the classifier trained on the basis coordinates of that data, applied through Psi^-T of that fit, after fit(refit=False). Correspondence: random histories on real SSPOC objects vs the Coq machine, whose predict tokens are evaluated by fresh objects (sklearn.clone of the classifier, fresh basis, fresh single-fit SSPOC) and compared label by label.",
              technique="Coq proof (state machine invariant, induction over histories) + vm_compute correspondence with fresh-object token evaluation", ref="5/C09"),
+ "C12": dict(text="Theorems (Coq, closed, over exact rationals Qc, every parameter value and ranking): for every shape predicate and both loc values the returned list is exactly the ranked sensors on the constrained side, in ranking order (filter homomorphism), 'in' and 'out' partition the ranking; the predicates mean closed disc / closed cylinder (3 axes) / parabola region / strictly right of the directed line / closed ellipse in the frame rotated by (c,s) (length-preserving when c^2+s^2=1); grid coordinates x = idx mod side, y = idx div side are inverse to x + side*y; Polygon (partial): crossing parity is invariant under the choice of starting vertex and of edge orientation; no Jordan-curve characterisation is proved, the exact winding-number oracle carries the general meaning. Correspondence: random shapes x loc x rankings on grids and float/int dataframes (2-D/3-D), model evaluated by vm_compute with the implementation's own cos/sin as rationals, repeated calls on one shape object.",
+             technique="Coq proof (Qc field/order reasoning, list filters, div/mod) + vm_compute correspondence + exact rational geometry oracle", ref="5/C12",
+             note="Polygon clause partial (see text). "),
+ "C13": dict(text="Theorems (Coq, closed): on every square grid (any side) with a full permutation of the sensors and every box, the box helper returns exactly the pixels with x_min<=x<=x_max, y_min<=y<=y_max (x = j mod side, y = j div side) without duplicates - the swap-and-ravel of the code is proved to be the transposition involution; the dataframe box returns exactly the positions (after dropping incomplete rows) in the half-open box; index<->coordinate conversions are mutually inverse; equation strings mark where the equation is true, files where the function is negative; load_name(id ++ '.py') = id for EVERY id (and the pre-repair str.strip behaviour is refuted by computation). Correspondence: all boxes with integer/half-integer bounds on grids up to 5x5 (7x7 thorough), random NaN dataframes, all indices, identifiers beginning/ending in p/y/_/digits written to real files and loaded, equations/functions from a small grammar evaluated by Python eval vs the Coq expression evaluator.",
+             technique="Coq proof (Z/nat div-mod with lia/nia, Permutation, Qc order) + exhaustive small-scope vm_compute correspondence", ref="5/C13"),
 }
 NOT_APPLICABLE = {}
 def main():
